@@ -34,7 +34,7 @@ RULE = ('Generated auto_config programs (source text in scratch modules) over: n
         'form with every partial probed (called twice). Non-trivial: the program contains >=2 '
         'configurable calls; distinct = program text.')
 RULE_ADDITIONS = (' Added by the rounds of seeded changes (DESIGN 9.7): ' +
-                  'closure rebinding; partial variables extended twice; module-level callables under builtin names; **kwargs order; bound-method calls (one behind a forwarding decorator); inherited auto_config classmethods using cls; diagnosis of container-sharing-only mismatches; factories with positional-only bound arguments; loops and comprehensions whose iterable holds configurable calls; signature-less container classes (OrderedDict, a dict subclass)')
+                  'closure rebinding; partial variables extended twice; module-level callables under builtin names; **kwargs order; bound-method calls (one behind a forwarding decorator); inherited auto_config classmethods using cls; diagnosis of container-sharing-only mismatches; factories with positional-only bound arguments; loops and comprehensions whose iterable holds configurable calls; signature-less container classes (OrderedDict, a dict subclass); always-inline auto_config functions as arg_factory factories')
 RULE = RULE + RULE_ADDITIONS
 ASSUMPTIONS = [
     'programs stay inside the documented supported subset (no calls in callee position other '
